@@ -807,6 +807,8 @@ def record_w(payload):
         ev.update({"ret": "T" if bool(b) else "F", "dof": int(d), "p9": _scaled(p), "s9": _scaled(s)})
         return {"stat": float(s), "p": float(p), "dof": int(d), "ret": ev["ret"]}
 
+    rng_warm = random.Random(payload.get("seed", 0) + 991)
+
     def pc_trace(t):
         """run PC with the CI_TESTS entry wrapped by a recorder"""
         nonlocal ncalls
@@ -815,9 +817,13 @@ def record_w(payload):
         orig = pcmod.CI_TESTS[name]
         events, raws = [], []
 
+        recording = [True]
+
         def rec(X, Y, Z, data=None, **kw):
             nonlocal ncalls
             out = orig(X, Y, Z, data=data, **kw)
+            if not recording[0]:
+                return out
             ncalls += 2
             ev = {"api": name, "lamarg": t["pc_lam"], "L": t["pc_L"], "X": X, "Y": Y, "Z": list(Z),
                   "alpha": _rat_alpha(kw.get("significance_level", -1))}
@@ -834,6 +840,13 @@ def record_w(payload):
         try:
             est = pcmod.PC(df)
             kw = {} if t["pc_lam"] in ("",) else {"lambda_": t["pc_lam"]}
+            if t["tid"] % 2 == 0:
+                # the SAME estimator object has answered another question before (another significance level): the recorded run must not
+                # depend on it (every removed edge needs a recorded verdict of THIS run)
+                recording[0] = False
+                est.estimate(variant=t["variant"], ci_test=name, significance_level=rng_warm.choice([0.0001, 0.9]), return_type="skeleton",
+                             show_progress=False, max_cond_vars=t["max_cond"], n_jobs=1, **kw)
+                recording[0] = True
             skel, _sep = est.estimate(variant=t["variant"], ci_test=name, significance_level=float(frac(t["alpha"])), return_type="skeleton",
                                       show_progress=False, max_cond_vars=t["max_cond"], n_jobs=1, **kw)
             t["skel"] = sorted([sorted([u, v]) for u, v in skel.edges()])
